@@ -457,8 +457,24 @@ def replay(path):
         strs = rp.get("strings") or [rp.get("string", "")]
         ob, rb = run_bitmaps("brush", [rp["pattern"]], strs, rp["form"], rp["extglob"], rp["nocase"])
         oh, _ = run_bitmaps("bash", [rp["pattern"]], strs, rp["form"], rp["extglob"], rp["nocase"])
-        print(json.dumps({"pattern": rp["pattern"], "brush": ob.get(0), "bash": oh.get(0)}, indent=1))
+        pb = py_bitmap(rp["pattern"], strs, rp["form"], rp["extglob"], rp["nocase"])
+        print(json.dumps({"pattern": rp["pattern"], "brush": ob.get(0), "bash": oh.get(0), "definitional_matcher": pb}, indent=1))
+        b, h = ob.get(0), oh.get(0)
+        if b != h:
+            if b is not None and h is not None and pb is not None and len(b) == len(h) == len(pb) and all(pb[j] == b[j] for j in range(len(b)) if b[j] != h[j]):
+                print("not judged: bash and the definitional matcher disagree here and brush sides with the definition (see DESIGN 10.4)")
+                return 0
+            print("VIOLATION property=C08 replay=%s" % path)
+            return 1
+    elif rp.get("kind") == "strip":
+        strs = [rp.get("string", "")]
+        ob, _ = run_strips("brush", [rp["pattern"]], strs, rp["extglob"])
+        oh, _ = run_strips("bash", [rp["pattern"]], strs, rp["extglob"])
+        print(json.dumps({"pattern": rp["pattern"], "string": strs[0], "brush": ob.get(0), "bash": oh.get(0)}, indent=1))
         if ob.get(0) != oh.get(0):
             print("VIOLATION property=C08 replay=%s" % path)
             return 1
+    elif rp.get("kind") == "glob":
+        print("glob cases are re-run by the check itself (./check C08 --tier quick); recorded observation:")
+        print(json.dumps({k: rp[k] for k in rp if k in ("glob", "options", "tree", "brush", "bash")}, indent=1)[:1500])
     return 0
